@@ -68,11 +68,15 @@ def log2BoundsFloat (W : Nat) (B : Nat) (signif : Int) (exp : Int) : Float32 × 
     let (lb, ub) := if exp ≥ 0 then (slb + e * blb, sub + e * bub) else (slb + e * bub, sub + e * blb)
     (nextDown lb, nextUp ub)
 
-/-- rational `Repr::log2_bounds` of `num/den` (as stored) -/
+/-- rational `Repr::log2_bounds` of `num/den` (as stored): differences of the part bounds, widened
+    outward by one ulp (since /repo e3b7f1c; before, the round-to-nearest differences were returned
+    as they were and `13/2^20` gave `lb = ub`, below the true logarithm) -/
 def log2BoundsRat (W : Nat) (num : Int) (den : Nat) : Float32 × Float32 :=
-  let (nlb, nub) := log2BoundsNat W num.natAbs
-  let (dlb, dub) := log2BoundsNat W den
-  (nlb - dub, nub - dlb)
+  if num = 0 then (negInf, negInf)
+  else
+    let (nlb, nub) := log2BoundsNat W num.natAbs
+    let (dlb, dub) := log2BoundsNat W den
+    (nextDown (nlb - dub), nextUp (nub - dlb))
 
 -- ---------------------------------------------------------------- exact enclosure test
 
